@@ -92,6 +92,9 @@ M = [
   "	ScopedOrigin origin{control, STATE_ID};\n\n	Head::wideUpdate(control);\n	Head::	  update(control);\n\n	FFSM2_LOG_STATE_METHOD(&Head::update,\n						   Method::UPDATE);\n", "update() logged after the callback"),
  ("C16-changewith-no-record", ["C16"], D + "root/control_3.inl",
   "		_core.request = Transition{_originId, stateId_, payload};\n\n		FFSM2_LOG_TRANSITION(context(), _originId, stateId_);", "		_core.request = Transition{_originId, stateId_, payload};\n", "changeWith() from a callback produces no transition record"),
+ ("C16-verbose-skips-callbackless", ["C16"], D + "shared/macros_on.hpp",
+  "		if (auto* const logger = control._core.logger)						   \\\n			logger->recordMethod(control.context(), STATE_ID, METHOD_ID)",
+  "		if (auto* const logger = control._core.logger)						   \\\n			log(METHOD, *logger, control.context(), METHOD_ID)", "verbose logging no longer records deliveries to states without the callback"),
  ("C17-copy-skips-request", ["C17"], D + "root/core.inl",
   "	, registry{other.registry}\n	, request {other.request }", "	, registry{other.registry}\n	, request {}", "copy forgets the outstanding request"),
  ("C18-bitarray-index-div4", ["C18", "C08", "C09"], D + "containers/bit_array.inl",
